@@ -16,10 +16,10 @@ CONSTANTS
   BodyPre <- T_BodyPre
   WinName <- T_WinName
   Dev <- DevAsIs
-  MaxOv = 3
+  MaxOv = 2
   Bases <- BasesT
-  PoolJ <- PoolJ_Q
-  PoolD <- PoolD_Q
+  PoolJ <- PoolJ_T
+  PoolD <- PoolD_T
   Dumps <- DumpsT
   Parts = 1
   Part = 0
